@@ -2,8 +2,6 @@ package p10
 
 import (
 	"strings"
-
-	"verifharness/internal/run"
 )
 
 var builtinNames = func() map[string]bool {
@@ -199,6 +197,3 @@ func (g *gen) layout(fs []*ufunc) (string, bool) {
 	}
 	return sb.String(), true
 }
-
-// keep the linter quiet about run import when unused in some builds
-var _ = run.Hash64
